@@ -131,8 +131,10 @@ pub fn build(g: &Grammar, thorough: bool) -> Vec<Case9> {
     for (label, ns, referrer) in &sites {
         for tk in kinds_of(*ns) {
             for overlap in ["absent", "identical", "conflict", "conflict+merge-taken", "conflict+merge-name-in-B"] {
-                for novelty in ["new", "conflicting"] {
-                    if referrer.name.is_empty() && novelty == "conflicting" {
+                // twin: A holds a referrer with the same text as B's (same name, same content, same reference text); whether the two
+                // are the same element depends on what their references designate after the merge
+                for novelty in ["new", "conflicting", "twin"] {
+                    if referrer.name.is_empty() && novelty != "new" {
                         continue; // singletons are all-or-nothing
                     }
                     let mut a: Vec<ESpec> = Vec::new();
@@ -172,6 +174,9 @@ pub fn build(g: &Grammar, thorough: bool) -> Vec<Case9> {
                         let mut ra = e(&referrer.tag, "R", "c2");
                         ra.set = vec![];
                         a.push(ra);
+                    }
+                    if novelty == "twin" {
+                        a.push(referrer.clone());
                     }
                     out.push(Case9 { label: format!("{label} -> {tk} X [{overlap}], referrer {novelty}"), site: label.to_string(), ta: file_text(g, "A", &a), tb: file_text(g, "B", &b) });
                 }
